@@ -240,7 +240,7 @@ pub fn parse_proj(definition: &str) -> Result<String, Error> {
         .replace("\r\n", "\n")
         .replace('\r', "\n")
         .replace(" +", " ")
-        .replace("\n+", " ")
+        .replace("\n+", "\n")
         .trim()
         .trim_start_matches('+')
         .to_string();
